@@ -4,9 +4,16 @@
 
    inp_digest = SHA256 (inp_preimage c), out_digest = SHA256 (out_preimage m).  SHA-256 is not
    modelled; its collision resistance on the pre-images compared is an assumption.  The JSON
-   save/load round trip is validated by the harness only (tested-only). *)
+   save/load round trip is validated by the harness only (tested-only).
+
+   Second part ("call sites"): the step from the configuration of a step as the system sees it
+   (syscfg: command, working directory, shell flag, input files, tracked variable names, the
+   director's environment and infra_env, overrides) to the ingredient maps that executor.py hands
+   to StepHash.from_inp (site_inp_cfg / site_full_cfg, regenerated from executor.py, step.py into
+   gen/GenHashSites.v) is inside the model. *)
 From Coq Require Import List NArith Bool Permutation.
-From SV Require Import lib.Bytes lib.KeySort model.HashTypes gen.GenHash model.Hash proofs.HashProofs.
+From SV Require Import lib.Bytes lib.KeySort model.HashTypes gen.GenHash model.Hash proofs.HashProofs
+  model.HashSiteTypes gen.GenHashSites model.HashSites proofs.HashSitesProofs.
 Import ListNotations.
 Open Scope N_scope.
 
@@ -165,6 +172,141 @@ Theorem C13_refreshed_missing_file :
     /\ fh_is_unknown (refreshed H old None) = true.
 Proof. exact refreshed_missing. Qed.
 
+(* ---------- call sites: configurations of a step as the system sees them ----------
+   sys_equiv s1 s2: same command, same working directory, same shell flag, same input files
+   (path, content digest, mode, size), same set of tracked variables, every tracked variable has
+   the same value or is undefined in both (effective_env: what the command of the step would see;
+   None = not defined, Some [] = defined and empty), same overrides.
+   sys_wf: NUL-free strings, the command accepted by Step.adjust_label, duplicate-free maps. *)
+Definition C13_site_inp_full : Prop :=
+  forall s1 s2 : syscfg, sys_wf s1 = true -> sys_wf s2 = true ->
+    inp_preimage (site_inp_cfg s1) = inp_preimage (site_inp_cfg s2) -> sys_equiv s1 s2.
+
+(* the ingredient maps built by the call site determine the system-level configuration *)
+Theorem C13_site_cfg_injective :
+  forall s1 s2 : syscfg, sys_wf s1 = true -> sys_wf s2 = true ->
+    cfg_equiv (site_inp_cfg s1) (site_inp_cfg s2) -> sys_equiv s1 s2.
+Proof. exact site_cfg_injective. Qed.
+
+Theorem C13_site_cfg_wf : forall s : syscfg, sys_wf s = true -> wf (site_inp_cfg s) = true.
+Proof. exact site_wf. Qed.
+
+(* the label carries command and working directory (Step.adjust_label refuses a command that
+   contains the marker "  # wd=") *)
+Theorem C13_label_determines_command_and_workdir :
+  forall c1 w1 c2 w2 : str,
+    label_rejected c1 = false -> label_rejected c2 = false ->
+    adjust_label c1 w1 = adjust_label c2 w2 -> c1 = c2 /\ w1 = w2.
+Proof. exact adjust_label_inj. Qed.
+
+(* composed with the injectivity of the pre-image: system-level configurations that share an
+   input digest pre-image are the same configuration.  Partial for the same reason as
+   C13_inp_preimage_injective_partial (inp_ok: D2). *)
+Theorem C13_site_inp_injective_partial :
+  forall (md : dmode) (s1 s2 : syscfg),
+    sys_wf s1 = true -> sys_wf s2 = true ->
+    inp_ok md (site_inp_cfg s1) = true -> inp_ok md (site_inp_cfg s2) = true ->
+    inp_preimage (site_inp_cfg s1) = inp_preimage (site_inp_cfg s2) -> sys_equiv s1 s2.
+Proof. exact site_inp_injective. Qed.
+
+(* the second call site (after the command ran) and the comparison across the two sites *)
+Theorem C13_site_full_injective_partial :
+  forall (md : dmode) (s1 s2 : syscfg),
+    sys_wf s1 = true -> sys_wf s2 = true ->
+    inp_ok md (site_full_cfg s1) = true -> inp_ok md (site_full_cfg s2) = true ->
+    inp_preimage (site_full_cfg s1) = inp_preimage (site_full_cfg s2) -> sys_equiv s1 s2.
+Proof. exact site_full_injective. Qed.
+
+Theorem C13_site_inp_vs_full_injective_partial :
+  forall (md : dmode) (s1 s2 : syscfg),
+    sys_wf s1 = true -> sys_wf s2 = true ->
+    inp_ok md (site_inp_cfg s1) = true -> inp_ok md (site_full_cfg s2) = true ->
+    inp_preimage (site_inp_cfg s1) = inp_preimage (site_full_cfg s2) -> sys_equiv s1 s2.
+Proof. exact site_inp_full_injective. Qed.
+
+(* With the override section opened by a bytes word (kw_ovr_is_str = false: holds today, computed
+   from gen/GenHash.v and recorded by the harness) the only hypothesis left is one the executor
+   guarantees: the inputs whose hashes reach from_inp exist (sys_inputs_known). *)
+Theorem C13_site_inp_injective_known_inputs :
+  kw_ovr_is_str = false ->
+  forall s1 s2 : syscfg,
+    sys_wf s1 = true -> sys_wf s2 = true ->
+    sys_inputs_known s1 = true -> sys_inputs_known s2 = true ->
+    inp_preimage (site_inp_cfg s1) = inp_preimage (site_inp_cfg s2) -> sys_equiv s1 s2.
+Proof. intros K s1 s2. exact (site_inp_injective_known s1 s2 K). Qed.
+
+(* the converse: the same system-level configuration always gets the same pre-image *)
+Theorem C13_site_inp_order_independent :
+  forall s1 s2 : syscfg, sys_wf s1 = true -> sys_equiv s1 s2 ->
+    inp_preimage (site_inp_cfg s1) = inp_preimage (site_inp_cfg s2).
+Proof. exact site_inp_order_independent. Qed.
+
+Theorem C13_site_out_injective_partial :
+  forall (md : dmode) (s1 s2 : syscfg),
+    wf_files (sys_outs s1) = true -> wf_files (sys_outs s2) = true ->
+    digests_ok md (sys_outs s1) = true -> digests_ok md (sys_outs s2) = true ->
+    out_preimage (site_out_outs s1) = out_preimage (site_out_outs s2) -> sys_out_equiv s1 s2.
+Proof. exact site_out_injective. Qed.
+
+(* the clauses of the property text, one ingredient at a time *)
+Theorem C13_site_differ_command :
+  forall (md : dmode) (s1 s2 : syscfg),
+    sys_wf s1 = true -> sys_wf s2 = true ->
+    inp_ok md (site_inp_cfg s1) = true -> inp_ok md (site_inp_cfg s2) = true ->
+    sys_command s1 <> sys_command s2 ->
+    inp_preimage (site_inp_cfg s1) <> inp_preimage (site_inp_cfg s2).
+Proof. exact differ_command. Qed.
+
+Theorem C13_site_differ_workdir :
+  forall (md : dmode) (s1 s2 : syscfg),
+    sys_wf s1 = true -> sys_wf s2 = true ->
+    inp_ok md (site_inp_cfg s1) = true -> inp_ok md (site_inp_cfg s2) = true ->
+    sys_workdir s1 <> sys_workdir s2 ->
+    inp_preimage (site_inp_cfg s1) <> inp_preimage (site_inp_cfg s2).
+Proof. exact differ_workdir. Qed.
+
+Theorem C13_site_differ_shell :
+  forall (md : dmode) (s1 s2 : syscfg),
+    sys_wf s1 = true -> sys_wf s2 = true ->
+    inp_ok md (site_inp_cfg s1) = true -> inp_ok md (site_inp_cfg s2) = true ->
+    sys_shell s1 <> sys_shell s2 ->
+    inp_preimage (site_inp_cfg s1) <> inp_preimage (site_inp_cfg s2).
+Proof. exact differ_shell. Qed.
+
+Theorem C13_site_differ_inputs :
+  forall (md : dmode) (s1 s2 : syscfg),
+    sys_wf s1 = true -> sys_wf s2 = true ->
+    inp_ok md (site_inp_cfg s1) = true -> inp_ok md (site_inp_cfg s2) = true ->
+    ~ Permutation (sys_inps s1) (sys_inps s2) ->
+    inp_preimage (site_inp_cfg s1) <> inp_preimage (site_inp_cfg s2).
+Proof. exact differ_inputs. Qed.
+
+Theorem C13_site_differ_tracked_set :
+  forall (md : dmode) (s1 s2 : syscfg),
+    sys_wf s1 = true -> sys_wf s2 = true ->
+    inp_ok md (site_inp_cfg s1) = true -> inp_ok md (site_inp_cfg s2) = true ->
+    ~ Permutation (sys_env_deps s1) (sys_env_deps s2) ->
+    inp_preimage (site_inp_cfg s1) <> inp_preimage (site_inp_cfg s2).
+Proof. exact differ_tracked_set. Qed.
+
+(* value or definedness of a tracked variable *)
+Theorem C13_site_differ_env_value_or_definedness :
+  forall (md : dmode) (s1 s2 : syscfg),
+    sys_wf s1 = true -> sys_wf s2 = true ->
+    inp_ok md (site_inp_cfg s1) = true -> inp_ok md (site_inp_cfg s2) = true ->
+    forall name : str,
+      In name (sys_env_deps s1) -> effective_env s1 name <> effective_env s2 name ->
+      inp_preimage (site_inp_cfg s1) <> inp_preimage (site_inp_cfg s2).
+Proof. exact differ_env. Qed.
+
+Theorem C13_site_differ_overrides :
+  forall (md : dmode) (s1 s2 : syscfg),
+    sys_wf s1 = true -> sys_wf s2 = true ->
+    inp_ok md (site_inp_cfg s1) = true -> inp_ok md (site_inp_cfg s2) = true ->
+    ~ Permutation (sys_ovrs s1) (sys_ovrs s2) ->
+    inp_preimage (site_inp_cfg s1) <> inp_preimage (site_inp_cfg s2).
+Proof. exact differ_overrides. Qed.
+
 (* ---------- non-vacuity ---------- *)
 (* label "é x  # wd=d/", shell, two inputs (non-ASCII path, one 32-byte digest with zero bytes
    and marker look-alikes inside, mode 0o100644, sizes up to 2^40), one defined and one undefined
@@ -193,3 +335,40 @@ Example C13_example_unknown_output :
   wf_files m = true /\ digests_ok Lookahead m = true
   /\ decode_out Lookahead (out_preimage m) = Some (sort_keys m).
 Proof. vm_compute. repeat split; reflexivity. Qed.
+
+(* call sites: command `make x` in `sub/`, shell, one input, the tracked variables FLAGS (defined
+   and EMPTY in the director's environment), HOME (not defined) and LANG (defined by infra_env,
+   which wins over os.environ), one override.  ex_sys_unset differs only in FLAGS being undefined:
+   the two are well-formed, satisfy the extra hypothesis, are not sys_equiv, and (by the theorem)
+   do not share a pre-image. *)
+Definition ex_sys (flags : list (str * str)) : syscfg :=
+  mk_sys [109;97;107;101;32;120] [115;117;98;47] true
+         [ ([97;46;99], mk_fsig ex_digest2 33261 0) ]
+         [ [70;76;65;71;83]; [72;79;77;69]; [76;65;78;71] ]
+         (flags ++ [ ([76;65;78;71], [67]); ([80;65;84;72], [47;98;105;110]) ])
+         [ ([76;65;78;71], [101;110]) ]
+         [ ([79;77;80], [52]) ]
+         [ ([111;117;116], mk_fsig unknown_digest 0 0) ].
+Definition ex_sys_empty : syscfg := ex_sys [ ([70;76;65;71;83], []) ].
+Definition ex_sys_unset : syscfg := ex_sys [].
+
+Example C13_example_site :
+  sys_wf ex_sys_empty = true /\ sys_wf ex_sys_unset = true
+  /\ sys_inputs_known ex_sys_empty = true /\ sys_inputs_known ex_sys_unset = true
+  /\ inp_ok Fixed (site_inp_cfg ex_sys_empty) = true /\ inp_ok Fixed (site_inp_cfg ex_sys_unset) = true
+  /\ effective_env ex_sys_empty [70;76;65;71;83] = Some []
+  /\ effective_env ex_sys_unset [70;76;65;71;83] = None
+  /\ effective_env ex_sys_empty [76;65;78;71] = Some [101;110]
+  /\ cfg_envs (site_inp_cfg ex_sys_empty)
+     = [ ([70;76;65;71;83], Some []); ([72;79;77;69], None); ([76;65;78;71], Some [101;110]) ]
+  /\ cfg_label (site_inp_cfg ex_sys_empty) = [109;97;107;101;32;120;32;32;35;32;119;100;61;115;117;98;47].
+Proof. vm_compute. repeat split; reflexivity. Qed.
+
+Example C13_example_site_empty_vs_unset :
+  inp_preimage (site_inp_cfg ex_sys_empty) <> inp_preimage (site_inp_cfg ex_sys_unset).
+Proof.
+  apply (C13_site_differ_env_value_or_definedness Fixed) with (name := [70;76;65;71;83]);
+    try (vm_compute; reflexivity).
+  - vm_compute. left. reflexivity.
+  - vm_compute. discriminate.
+Qed.
